@@ -4,7 +4,7 @@ from ..models.codec_model import LIMITS
 
 ASCII = "abcxyzABC 0123!#$%&()*+,-./:;<=>?@[]^_`{|}"
 HIGH = "€‚ƒ„…†‡ˆ‰Š‹ŒŽ‘’“”•–—˜™š›œžŸ¡¢£¤¥¦§¨©ª«¬®¯°±²³´µ¶·¸¹º»¼½¾¿ÀÁÂÆÇÈÉÑÒÓÖ×ØÙÜÝÞßàáâæçèéñòóö÷øùüýþ"
-NON_CP1252 = "ĀāĂ中文кирил😀\u0081\u008d\u0090\x00\x7f\u0308\u030a\u212a\u212b\u1100\u1161\u0301"   # incl. combining marks, Kelvin/Angstrom signs, jamo
+NON_CP1252 = "ĀāĂ中文кирил😀\u0081\u008d\u0090\x00\x7f\u0308\u030a\u212a\u212b\u1100\u1161\u0301\ufffd"   # incl. combining marks, Kelvin/Angstrom signs, jamo
 Y_DIAERESIS = "ÿ"
 
 
